@@ -10,7 +10,6 @@ import (
 	"crypto/sha512"
 	"hash"
 	"math/big"
-	"strings"
 
 	"github.com/miekg/dns"
 	"github.com/semihalev/sdns/internal/dnsutil"
@@ -34,7 +33,12 @@ func signatureBinding(k *dns.DNSKEY, sig *dns.RRSIG, rrset []dns.RR) error {
 		sig.Hdr.Class != k.Hdr.Class {
 		return ErrMissingDNSKEY
 	}
-	if !strings.EqualFold(sig.SignerName, k.Hdr.Name) {
+	// Both spellings must be rooted and equal under the DNS case fold, which
+	// is ASCII only (RFC 4343). strings.EqualFold folds Unicode as well — the
+	// Kelvin sign equals "k" — and equates two unrooted spellings; the library
+	// roots the signer and compares octets, so either would accept a signature
+	// under a key owned by a name the library tells apart.
+	if !dns.IsFqdn(k.Hdr.Name) || !sameDNSName(sig.SignerName, k.Hdr.Name) {
 		return ErrMissingDNSKEY
 	}
 
@@ -42,7 +46,7 @@ func signatureBinding(k *dns.DNSKEY, sig *dns.RRSIG, rrset []dns.RR) error {
 	h0 := rrset[0].Header()
 	if h0.Class != sig.Hdr.Class || h0.Rrtype != sig.TypeCovered ||
 		dns.CountLabel(h0.Name) < int(sig.Labels) ||
-		!strings.EqualFold(h0.Name, sig.Hdr.Name) ||
+		!sameDNSName(h0.Name, sig.Hdr.Name) ||
 		// On a label boundary, not a string suffix. RFC 4035 §5.3.1 requires
 		// the signer to name the zone containing the RRset, and a plain
 		// suffix test reads evilexample.com. as inside example.com. The
@@ -55,6 +59,28 @@ func signatureBinding(k *dns.DNSKEY, sig *dns.RRSIG, rrset []dns.RR) error {
 		return ErrMissingSigned
 	}
 	return nil
+}
+
+// sameDNSName reports whether two presentation-form names are equal under
+// the DNS case fold: octet for octet, with only ASCII A-Z folded (RFC 4343),
+// which is the comparison miekg/dns' preflight makes.
+func sameDNSName(a, b string) bool {
+	if len(a) != len(b) {
+		return false
+	}
+	for i := 0; i < len(a); i++ {
+		ca, cb := a[i], b[i]
+		if ca >= 'A' && ca <= 'Z' {
+			ca += 'a' - 'A'
+		}
+		if cb >= 'A' && cb <= 'Z' {
+			cb += 'a' - 'A'
+		}
+		if ca != cb {
+			return false
+		}
+	}
+	return true
 }
 
 // verifySignature checks an RRSIG against a DNSKEY, returning nil when the
